@@ -200,24 +200,21 @@ theorem pipe_unary_err_iff (m : UMethod) (lvl rid : Bytes) (s : UnaryScript) :
   | fail e => simp [Batch.isExc]
   | panic p => simp [Batch.isExc]
 
-/-- **end_err_iff_response_error (HTTP unary).** -/
-theorem http_unary_err_iff (m : UMethod) (lvl rid : Bytes) (s : UnaryScript) :
-    (httpUnaryOutcome m lvl rid s).dispatched = true ∧
-    (httpUnaryOutcome m lvl rid s).handlerErr = (httpUnaryOutcome m lvl rid s).respError := by
-  refine ⟨rfl, ?_⟩
+/-- **end_err_iff_response_error (HTTP unary)**, under every cap configuration: the handler's
+own failure, a cap refusal of a successful valued result, or a clean answer. -/
+theorem http_unary_err_iff (cfg : HttpCfg) (m : UMethod) (lvl rid : Bytes) (s : UnaryScript) :
+    (httpUnaryOutcome cfg m lvl rid s).dispatched = true ∧
+    (httpUnaryOutcome cfg m lvl rid s).handlerErr = (httpUnaryOutcome cfg m lvl rid s).respError := by
   have hp := (pipe_unary_err_iff m lvl rid s).2
   have ha := C04.pipe_http_agree m lvl rid s
-  unfold httpUnaryOutcome pipeUnaryOutcome at *
-  simp only at hp ⊢
-  rw [ha.1, ha.2.1, hp]
-  cases hx : hasExc (serveUnary m lvl rid s).1.batches with
-  | true => simp
-  | false =>
-    simp only [Bool.or_false]
-    -- no exception batch ⇒ the handler did not fail ⇒ no error header
-    have hnone : (serveUnary m lvl rid s).2.isSome = false := by rw [hp]; exact hx
+  unfold pipeUnaryOutcome at hp
+  simp only at hp
+  -- the body holds an exception batch exactly when the handler failed
+  have hbody : hasExc (handleUnary m lvl rid s).1.body.batches = (handleUnary m lvl rid s).2.isSome := by
+    rw [ha.1, ha.2.1, hp]
+  have hhdr : (handleUnary m lvl rid s).2.isSome = false → (handleUnary m lvl rid s).1.errorHeader = false := by
+    intro hnone
     have hf : (C04.failure s.outcome).isSome = false := by
-      have herr : (handleUnary m lvl rid s).2 = (serveUnary m lvl rid s).2 := ha.2.1
       cases hfo : C04.failure s.outcome with
       | none => rfl
       | some msg =>
@@ -227,12 +224,22 @@ theorem http_unary_err_iff (m : UMethod) (lvl rid : Bytes) (s : UnaryScript) :
           have h2 : Batch.exc msg (ridOpt rid) ∈ (unaryResponse .pipe m lvl rid s).batches.filter Batch.isExc := by
             rw [this]; simp
           exact (List.mem_filter.1 h2).1
-        have : hasExc (serveUnary m lvl rid s).1.batches = true := by
+        have hx : hasExc (serveUnary m lvl rid s).1.batches = true := by
           unfold hasExc; rw [List.any_eq_true]; exact ⟨_, hmem, rfl⟩
-        rw [hx] at this; cases this
+        rw [← hp, ← ha.2.1, hnone] at hx; cases hx
     cases hh : (handleUnary m lvl rid s).1.errorHeader with
     | false => rfl
     | true => have := ha.2.2.2.1 hh; rw [hf] at this; cases this
+  unfold httpUnaryOutcome
+  simp only
+  cases hs : (handleUnary m lvl rid s).2.isSome with
+  | true => simp [hbody, hs]
+  | false =>
+    simp only [Bool.false_eq_true, if_false]
+    cases cfg with
+    | plain => simp [hbody, hs, hhdr hs]
+    | wireCap => by_cases hv : m.isVoid = true <;> simp [hv, capFail]
+    | extCap => by_cases hv : m.isVoid = true <;> simp [hv, capFail]
 
 /-- **end_err_iff_response_error (pipe stream).** -/
 theorem pipe_stream_err_iff (m : SMethod) (lvl rid : Bytes) (s : StreamScript) (input : InputStream) :
@@ -260,24 +267,24 @@ theorem pipe_stream_err_iff (m : SMethod) (lvl rid : Bytes) (s : StreamScript) (
   rw [hany, h]
   cases (serveStream m lvl rid s input).handlerErr <;> simp
 
-theorem producerResponse_err_iff (s : StreamScript) (limit k : Nat) (enc : Bool) :
-    (producerResponse s limit k enc).outcome.dispatched = true ∧
-    (producerResponse s limit k enc).outcome.handlerErr = (producerResponse s limit k enc).outcome.respError := by
+theorem producerResponse_err_iff (cfg : HttpCfg) (s : StreamScript) (limit k : Nat) (enc : Bool) :
+    (producerResponse cfg s limit k enc).outcome.dispatched = true ∧
+    (producerResponse cfg s limit k enc).outcome.handlerErr = (producerResponse cfg s limit k enc).outcome.respError := by
   unfold producerResponse
   simp only
-  cases (produceLoop s limit k).err with
+  cases (produceLoop s (cfg == .extCap) limit k).err with
   | some e => exact ⟨rfl, rfl⟩
   | none =>
-    by_cases hf : (produceLoop s limit k).finished = true
-    · simp [hf]
-    · by_cases he : enc = true <;> simp [hf, he, httpFail]
+    by_cases hf : (produceLoop s (cfg == .extCap) limit k).finished = true
+    · simp [hf, httpOk]
+    · by_cases he : enc = true <;> simp [hf, he, httpFail, httpOk]
 
-/-- **end_err_iff_response_error (HTTP stream init)**, including the producer whose continuation
-token cannot be minted and the exchange init whose state cannot be sealed (fixed by the
-`fix:` commit recorded in findings.d/C37.json). -/
-theorem http_init_err_iff (m : SMethod) (limit : Nat) (s : StreamScript) (enc : Bool) :
-    (httpInit m limit s enc).outcome.dispatched = true ∧
-    (httpInit m limit s enc).outcome.handlerErr = (httpInit m limit s enc).outcome.respError := by
+/-- **end_err_iff_response_error (HTTP stream init)**, under every cap configuration, including
+the producer whose continuation token cannot be minted, the exchange init whose state cannot be
+sealed and the header that cannot be serialized (F37, fixed). -/
+theorem http_init_err_iff (cfg : HttpCfg) (m : SMethod) (limit : Nat) (s : StreamScript) (enc : Bool) :
+    (httpInit cfg m limit s enc).outcome.dispatched = true ∧
+    (httpInit cfg m limit s enc).outcome.handlerErr = (httpInit cfg m limit s enc).outcome.respError := by
   unfold httpInit
   cases s.init with
   | fail e => exact ⟨rfl, rfl⟩
@@ -288,17 +295,22 @@ theorem http_init_err_iff (m : SMethod) (limit : Nat) (s : StreamScript) (enc : 
     cases decideMode m.typ st with
     | none => exact ⟨rfl, rfl⟩
     | some isP =>
-      cases isP with
-      | true => exact producerResponse_err_iff s limit 0 enc
-      | false => by_cases he : enc = true <;> simp [he, httpFail]
+      simp only
+      by_cases hb : (m.hasHeader && hdr == some badHeader) = true
+      · simp [hb, httpFail]
+      · simp only [hb, Bool.false_eq_true, if_false]
+        cases isP with
+        | true => exact producerResponse_err_iff cfg s limit 0 enc
+        | false => by_cases he : enc = true <;> simp [he, httpFail, httpOk]
 
 /-- **end_err_iff_response_error (HTTP exchange / continuation / cancel)**: for every request
-that reaches the dispatch point. -/
-theorem http_exchange_err_iff (m : SMethod) (limit : Nat) (s : StreamScript) (isP : Bool) (k : Nat)
-    (src : Schema) (inp : HttpInput)
-    (hd : (httpExchange m limit s isP k src inp).outcome.dispatched = true) :
-    (httpExchange m limit s isP k src inp).outcome.handlerErr =
-      (httpExchange m limit s isP k src inp).outcome.respError := by
+that reaches the dispatch point — a failing turn, a turn without data, an input that does not
+cast to the schema a dynamic stream declared, a cap refusal, or a clean turn. -/
+theorem http_exchange_err_iff (cfg : HttpCfg) (m : SMethod) (limit : Nat) (s : StreamScript) (isP : Bool)
+    (declared : Option Schema) (k : Nat) (src : Schema) (inp : HttpInput)
+    (hd : (httpExchange cfg m limit s isP declared k src inp).outcome.dispatched = true) :
+    (httpExchange cfg m limit s isP declared k src inp).outcome.handlerErr =
+      (httpExchange cfg m limit s isP declared k src inp).outcome.respError := by
   unfold httpExchange at hd ⊢
   cases inp with
   | cancel => rfl
@@ -306,21 +318,48 @@ theorem http_exchange_err_iff (m : SMethod) (limit : Nat) (s : StreamScript) (is
     simp only at hd ⊢
     cases hc : httpCasted m src v lib with
     | error e => rw [hc] at hd; simp at hd
-    | ok inVal =>
+    | ok v1 =>
       simp only
       by_cases hp : isP = true
-      · simp only [hp, if_true]; exact (producerResponse_err_iff s limit k true).2
+      · simp only [hp, if_true]; exact (producerResponse_err_iff cfg s limit k true).2
       · simp only [hp, Bool.false_eq_true, if_false]
-        rcases ht : runTurn false inVal (s.turnAt k) with ⟨c, e⟩
-        cases e with
-        | some e => rfl
-        | none => by_cases hdat : c.hasData = true <;> simp [hdat, httpFail]
+        cases httpDeclaredCast m declared src v1 lib with
+        | error e => rfl
+        | ok inVal =>
+          simp only
+          rcases ht : runTurn false inVal (s.turnAt k) with ⟨c, e⟩
+          cases e with
+          | some e => rfl
+          | none =>
+            simp only
+            by_cases h1 : (!c.hasData) = true
+            · simp [h1, httpFail]
+            · simp only [h1, Bool.false_eq_true, if_false]
+              by_cases h2 : (cfg == HttpCfg.extCap && c.dataNonEmpty) = true
+              · simp [h2, httpFail]
+              · simp only [h2, Bool.false_eq_true, if_false]
+                by_cases h3 : (cfg == HttpCfg.wireCap) = true <;> simp [h3, httpFail, httpOk]
+
+/-- A dynamic exchange stream refuses, AFTER the hook started, an input that does not cast to the
+schema it declared — and the hook is told (the seeded change C37-a removed exactly that). -/
+theorem dynamic_declared_cast_failure_reported (cfg : HttpCfg) (m : SMethod) (limit : Nat) (s : StreamScript)
+    (declared : Schema) (k : Nat) (src : Schema) (v : String) (lib : Option String)
+    (hdyn : m.typ = .dynamic) (hreg : m.inputSchema = none)
+    (hfail : castInput src declared v lib = .error fwCast) :
+    httpExchange cfg m limit s false (some declared) k src (.data v lib) = httpFail := by
+  unfold httpExchange
+  simp [httpCasted, hreg, httpDeclaredCast, hdyn, hfail]
 
 /-- Undeserializable parameters are dispatched and reported on both sides; an unknown method is
 not dispatched at all. -/
 theorem fixed_outcomes :
     badParamsOutcome.dispatched = true ∧ badParamsOutcome.handlerErr = badParamsOutcome.respError ∧
-    unknownMethodOutcome.dispatched = false := ⟨rfl, rfl, rfl⟩
+    refusedAfterStartOutcome.dispatched = true ∧
+    refusedAfterStartOutcome.handlerErr = refusedAfterStartOutcome.respError ∧
+    serializationErrorOutcome.dispatched = true ∧
+    serializationErrorOutcome.handlerErr = serializationErrorOutcome.respError ∧
+    unknownMethodOutcome.dispatched = false ∧ pipeVersionRefusedOutcome.dispatched = false :=
+  ⟨rfl, rfl, rfl, rfl, rfl, rfl, rfl, rfl⟩
 
 /-- **end_err_iff_response_error**, assembled: for any dispatched call whose outcome satisfies
 `handlerErr = respError` (all call kinds above) and a hook whose start returns, the single end
@@ -334,9 +373,9 @@ theorem end_err_iff_response_error (mode : HookMode) (tok : Nat) (o : CallOutcom
 
 /-- `produceLoop` runs at most `fuel` further turns… and at least reports where it stopped:
 the cursor only moves forward, by at most `fuel` turns when the limit stops it. -/
-theorem produceLoop_cursor (s : StreamScript) : ∀ (fuel k : Nat),
-    k ≤ (produceLoop s fuel k).cursor ∧ (produceLoop s fuel k).cursor ≤ k + fuel ∧
-    ((produceLoop s fuel k).finished = true → (produceLoop s fuel k).err = none) := by
+theorem produceLoop_cursor (s : StreamScript) (x : Bool) : ∀ (fuel k : Nat),
+    k ≤ (produceLoop s x fuel k).cursor ∧ (produceLoop s x fuel k).cursor ≤ k + fuel ∧
+    ((produceLoop s x fuel k).finished = true → (produceLoop s x fuel k).err = none) := by
   intro fuel
   induction fuel with
   | zero => intro k; simp [produceLoop]
@@ -351,11 +390,14 @@ theorem produceLoop_cursor (s : StreamScript) : ∀ (fuel k : Nat),
       by_cases h1 : (!c.finished && !c.hasData) = true
       · simp [h1]
       · simp only [h1, Bool.false_eq_true, if_false]
-        by_cases h2 : c.finished = true
-        · simp [h2]
-        · simp only [h2, Bool.false_eq_true, if_false]
-          have := ih (k + 1)
-          exact ⟨by omega, by omega, this.2.2⟩
+        by_cases hx : (x && c.dataNonEmpty) = true
+        · simp [hx]
+        · simp only [hx, Bool.false_eq_true, if_false]
+          by_cases h2 : c.finished = true
+          · simp [h2]
+          · simp only [h2, Bool.false_eq_true, if_false]
+            have := ih (k + 1)
+            exact ⟨by omega, by omega, this.2.2⟩
 
 /-! ### Non-vacuity -/
 
@@ -366,9 +408,17 @@ example : historyEvents 1 [(.panicStart, ⟨true, false, false⟩), (.normal, un
     = [[.start 1 true], [], [.start 2 false, .finish (some 2) true true],
        [.start 3 false, .finish (some 3) false false]] := by decide
 -- a producer over HTTP with batch limit 2 whose state type cannot be sealed: error on both sides
-example : (httpInit ⟨.producer, "{x:int64}", true, none, false, "{}"⟩ 2
+example : (httpInit .plain ⟨.producer, "{x:int64}", true, none, false, "{}"⟩ 2
       ⟨[], .ok .prod .absent none none, [], ⟨[.echo true], .ok⟩⟩ false).outcome = ⟨true, true, true⟩ := by decide
-example : (httpInit ⟨.producer, "{x:int64}", true, none, false, "{}"⟩ 2
+example : (httpInit .plain ⟨.producer, "{x:int64}", true, none, false, "{}"⟩ 2
       ⟨[], .ok .prod .absent none none, [], ⟨[.echo true], .ok⟩⟩ true) = ⟨⟨true, false, false⟩, some 2⟩ := by decide
+-- a dynamic exchange stream that declared {x:int64}: a renamed input column is refused after the
+-- hook started (error on both sides), an int64 input is exchanged
+example : httpExchange .plain ⟨.dynamic, "{x:int64}", false, none, true, "{}"⟩ 2
+      ⟨[], .ok .exch .absent none (some [⟨"x", "int64", false⟩]), [], ⟨[.echo true], .ok⟩⟩ false
+      (some [⟨"x", "int64", false⟩]) 0 [⟨"y", "int64", false⟩] (.data "i:1" none) = httpFail := by decide
+example : httpExchange .plain ⟨.dynamic, "{x:int64}", false, none, true, "{}"⟩ 2
+      ⟨[], .ok .exch .absent none (some [⟨"x", "int64", false⟩]), [], ⟨[.echo true], .ok⟩⟩ false
+      (some [⟨"x", "int64", false⟩]) 0 [⟨"x", "int64", false⟩] (.data "i:1" none) = httpOk (some 1) := by decide
 
 end Vgi.Props.C37
